@@ -62,7 +62,9 @@ def gen(rng, tier):
         faults.append(dict(kind="kill", target=["root"], sig=9, at=["step", rng.randint(150, 1200)]))
         main.append({"op": "sleep", "d": 5.0})
     return dict(family="tracker-tree", knobs=gen_knobs(rng, tier, line=False), model=gen_model(rng), threads=threads,
-                faults=faults, ctx=ctx, variant=variant, end=end)
+                faults=faults, ctx=ctx, variant=variant, end=end,
+                # the re-imported main module of loky_init_main children performs a tracked operation at import time
+                main_tracked_op=(ctx == "loky_init_main" and rng.random() < 0.6))
 
 
 class C12(Prop):
@@ -109,6 +111,12 @@ class C12(Prop):
             nonroot = [t for t in trackers if t.orig_ppid != 100]
             if len(trackers) != 1 or nonroot:
                 out.append(V(pid, "C12/more-than-one-tracker", "trackers %r" % [(t.pid, t.orig_ppid) for t in trackers]))
+            for n in res.obs.notes:
+                if n[0] == "main-import-tracker" and trackers and n[2] != trackers[0].pid:
+                    out.append(V(pid, "C12/import-time-operation-reports-to-another-tracker",
+                                 "process %d: a tracked operation in the re-imported main module used tracker %r, the "
+                                 "tree's tracker is %d" % (n[1], n[2], trackers[0].pid)))
+                    break
             seen = set(e["tracker"] for e in res.obs.exec_log)
             if trackers and seen - {trackers[0].pid}:
                 out.append(V(pid, "C12/process-reports-to-another-tracker", "tracker pids seen in tasks: %r, real tracker %d" % (sorted(seen, key=str), trackers[0].pid)))
